@@ -627,6 +627,8 @@ def flip_decisions(spec, inst, st, res, enc, pc, seeds):
     maxflip = inst.get("flips_per_path", 12)
     hyps = []
     extra = spec.input_domain(enc, inst) if hasattr(spec, "input_domain") else []
+    if hasattr(spec, "flip_domain"):
+        extra = list(extra) + list(spec.flip_domain(enc, inst))   # box for the seeds of flipped paths only; never a hypothesis of an obligation
     linear_only = inst.get("flip_linear_only", False)
     for k, (idx, c) in enumerate(pc):
         if len(out) >= maxflip:
